@@ -29,6 +29,9 @@ type C16Case struct {
 	Cpus      int      `json:"cpus"`
 	Policy    int      `json:"policy"`
 	BadAt     int      `json:"bad_at"` // position of a 2-nt sequence that makes Translate fail (-1 = none)
+	LenCut    *float64 `json:"len_cutoff,omitempty"`   // nil = the phaser's default
+	MatchCut  *float64 `json:"match_cutoff,omitempty"` // nil = the phaser's default
+	Scores    bool     `json:"scores,omitempty"`       // explicit match / mismatch / gap scores instead of the substitution matrix
 	Choices   []int    `json:"choices"`
 }
 
@@ -80,6 +83,15 @@ func (c16) Gen(rs uint64, tier string, race bool) interface{} {
 	c.Code = r.Intn(3)
 	c.Cpus = r.Pick(1, 2, 2, 3, 3, 4, 4, 8, 16, 32)
 	c.Policy = r.Pick(PolUniform, PolUniform, PolSticky, PolPCT, PolPCT, PolStarve)
+	if r.Chance(0.3) {
+		v := r.PickS0(-1, 0.5, 0.9)
+		c.LenCut = &v
+	}
+	if r.Chance(0.3) {
+		v := r.PickS0(-1, 0.3, 0.8)
+		c.MatchCut = &v
+	}
+	c.Scores = r.Chance(0.15)
 	ns := r.Range(1, 12)
 	if r.Chance(0.08) {
 		ns = r.Range(52, 70) // more than both 50-slot channels hold
@@ -212,6 +224,17 @@ func (c *C16Case) runPhase(ctx *Ctx, cpus int, cfg SchedCfg) (pr phaseRun) {
 	p.SetReverse(c.Reverse)
 	p.SetCutEnd(c.CutEnd)
 	p.SetTranslate(c.Translate, c.Code)
+	if c.LenCut != nil {
+		p.SetLenCutoff(*c.LenCut)
+	}
+	if c.MatchCut != nil {
+		p.SetMatchCutoff(*c.MatchCut)
+	}
+	if c.Scores {
+		p.SetAlignScores(1, -1)
+		p.SetGapOpen(-8)
+		p.SetGapExtend(-1)
+	}
 	var results []phRes
 	var callErr error
 	closed := false
